@@ -10,10 +10,12 @@ import (
 	"context"
 	"errors"
 	"fmt"
+	"reflect"
 	"strings"
 	"sync"
 	"testing"
 	"time"
+	"unsafe"
 
 	lifecycle "github.com/boz/go-lifecycle"
 	"github.com/cosmos/cosmos-sdk/crypto/keys/secp256k1"
@@ -77,6 +79,22 @@ func c20Manifest(variant int, host string, count uint32, emptySvc bool) manifest
 		g.Services = nil
 	}
 	return manifest.Manifest{g}
+}
+
+// c20Request builds the request exactly as service.Submit does, but does not depend on whether
+// the unexported `value` field holds the submission by pointer or by value (a refactoring that
+// must not make the harness fail to build).
+func c20Request(did dtypes.DeploymentID, mf manifest.Manifest, ch chan error) manifestRequest {
+	req := manifestRequest{ch: ch, ctx: context.Background()}
+	sub := submitRequest{Deployment: did, Manifest: mf}
+	f := reflect.ValueOf(&req).Elem().FieldByName("value")
+	f = reflect.NewAt(f.Type(), unsafe.Pointer(f.UnsafeAddr())).Elem()
+	if f.Kind() == reflect.Ptr {
+		f.Set(reflect.ValueOf(&sub))
+	} else {
+		f.Set(reflect.ValueOf(sub))
+	}
+	return req
 }
 
 type c20Sub struct {
@@ -354,7 +372,7 @@ func c20Machine(t *rapid.T, prop string) {
 				nextSub++
 				subs = append(subs, s)
 				note("submit#%d(%s)", s.id, kind)
-				m.handleManifest(manifestRequest{value: &submitRequest{Deployment: did, Manifest: mf}, ch: s.ch, ctx: context.Background()})
+				m.handleManifest(c20Request(did, mf, s.ch))
 				barrier("submit")
 				if dataState == "none" {
 					takeFetch(50 * time.Millisecond)
@@ -472,7 +490,7 @@ func c20Machine(t *rapid.T, prop string) {
 		late := &c20Sub{id: nextSub, ch: make(chan error, 1), kind: "late", valid: true}
 		lateDone := make(chan struct{})
 		go func() {
-			m.handleManifest(manifestRequest{value: &submitRequest{Deployment: did, Manifest: c20Manifest(0, "", 2, false)}, ch: late.ch, ctx: context.Background()})
+			m.handleManifest(c20Request(did, c20Manifest(0, "", 2, false), late.ch))
 			close(lateDone)
 		}()
 		select {
